@@ -36,6 +36,8 @@ func runC01(p *Program, r *Report) {
 	ruleR015(p, r)
 	ruleR016(p, r)
 	ruleHmacProcessorState(p, r, "R01.7")
+	r.Rule("R01.11", "E2", 3, "working state of the crypto helpers is per call: every stateful digest (hash.Hash) that the envelope, search-hash and token code writes to was created in the same function by a constructor call - never taken from a struct field, a package variable or a parameter; such an object is shared by every connection that uses the package-level helper, and interleaved Reset/Write/Sum sequences of concurrent requests produce wrong key ids and hashes (values protected then cannot be revealed)")
+	ruleR0111(p, r)
 }
 
 type envKind int
@@ -922,4 +924,54 @@ func ruleR0110(p *Program, r *Report) {
 func init() {
 	mut("C01", "AcraBlock gives up after the first key with a matching id", "acrablock/acrablock.go", "			if err == nil {\n				dataEncryptionKey = decryptedKey\n				break\n			}", "			if err != nil {\n				return nil, ErrInvalidAcraBlock\n			}\n			dataEncryptionKey = decryptedKey\n			break", "R01.10", "every key")
 	mut("C01", "searchable write hashes before it knows whether the value is an envelope", "hmac/dataEncryptor.go", "		var encryptedData, hash []byte\n		if e.decryptor.MatchDataSignature(data) {", "		var encryptedData, hash []byte\n		hash0 := GenerateHMAC(key, data)\n		_ = hash0\n		if e.decryptor.MatchDataSignature(data) {", "R01.9", "already protected value")
+}
+
+// ---- R01.11
+func ruleR0111(p *Program, r *Report) { rulePerCallDigest(p, r, "R01.11") }
+
+func rulePerCallDigest(p *Program, r *Report, rule string) {
+	n := 0
+	for _, fn := range p.srcFns {
+		pp := strings.TrimPrefix(fnPkgPath(fn), acraMod+"/")
+		if !(pp == "acrablock" || pp == "acrastruct" || pp == "crypto" || pp == "hmac" || strings.HasPrefix(pp, "pseudonymization") || pp == "logging" || strings.HasPrefix(pp, "keystore/v2/keystore/crypto")) {
+			continue
+		}
+		for _, b := range fn.Blocks {
+			for _, in := range b.Instrs {
+				c, ok := in.(*ssa.Call)
+				if !ok || !c.Call.IsInvoke() {
+					continue
+				}
+				m := c.Call.Method.Name()
+				if m != "Write" && m != "Reset" && m != "Sum" {
+					continue
+				}
+				if !strings.HasSuffix(c.Call.Value.Type().String(), "hash.Hash") {
+					continue
+				}
+				n++
+				bad := ""
+				for _, leaf := range leavesOf(c.Call.Value, leafOpts{}) {
+					switch x := leaf.(type) {
+					case *ssa.Call:
+						continue // created here (sha256.New, hmac.New, a constructor of the package)
+					case *ssa.Extract:
+						_ = x
+						continue
+					case *ssa.Const:
+						continue // nil on a path that is replaced
+					}
+					bad = "the digest comes from " + exprTextOf(p, leaf) + " (" + fmt.Sprintf("%T", leaf) + "), not from a constructor call in this function"
+				}
+				r.Check(bad == "", rule, fnName(fn), "hash."+m+" on a digest created in this call", p.Pos(c.Pos()), "receiver created by a constructor call in the function", bad+": the object outlives the call and is shared by concurrent requests, whose Reset/Write/Sum sequences interleave")
+			}
+		}
+	}
+	if n < 3 {
+		r.Bad(rule, "crypto helpers", "digest uses", "-", fmt.Sprintf("%d uses of hash.Hash found, at least 3 confirmed by reading", n))
+	}
+}
+
+func init() {
+	mut("C01", "v2 signer keeps one HMAC state for all callers (original defect)", "keystore/v2/keystore/crypto/signature.go", "func (s *SignSha256) Sign(data, context []byte) []byte {\n	mac := hmac.New(sha256.New, s.key)", "var sharedMAC = hmac.New(sha256.New, nil)\n\nfunc (s *SignSha256) Sign(data, context []byte) []byte {\n	mac := sharedMAC\n	mac.Reset()", "R01.11", "SignSha256")
 }
